@@ -76,6 +76,7 @@ type Run struct {
 	matched  map[string]int
 	firstHit map[string]*Violation
 	perCl    map[string]int
+	classes  map[string]int
 	exh      bool
 	// MaxPerClause is the circuit breaker: stop recording replays for a clause after this many.
 	MaxPerClause int
@@ -95,7 +96,10 @@ func NewRun(prop, level string) *Run {
 	r := &Run{Prop: prop, Tier: tier, Seed: seed, Level: level, start: time.Now(),
 		distinct: map[string]struct{}{}, hist: map[string]int{}, extra: map[string]any{},
 		matched: map[string]int{}, perCl: map[string]int{}, inconWhy: map[string]int{},
-		firstHit: map[string]*Violation{}, MaxPerClause: 5}
+		firstHit: map[string]*Violation{}, classes: map[string]int{}, MaxPerClause: 5}
+	if v, err := strconv.Atoi(os.Getenv("VERIF_MAX_PER_CLAUSE")); err == nil && v > 0 {
+		r.MaxPerClause = v
+	}
 	r.loadFindings()
 	return r
 }
@@ -243,6 +247,10 @@ func (r *Run) Violate(clause string, locus map[string]string, detail any) string
 		}
 	}
 	r.perCl[clause]++
+	if len(r.classes) < 400 {
+		lb, _ := json.Marshal(locus)
+		r.classes[clause+" "+string(lb)]++
+	}
 	if r.perCl[clause] > r.MaxPerClause {
 		return ""
 	}
@@ -305,6 +313,7 @@ func (r *Run) Finish() {
 	}
 	if unlisted > 0 {
 		cov["unlisted_violations_by_clause"] = r.perCl
+		cov["unlisted_violation_classes"] = r.classes
 	}
 	ev := evidence{PropertyID: r.Prop, Tier: r.Tier, Seed: r.Seed, Level: r.Level, Coverage: cov,
 		Assumptions: r.Assume, WallS: time.Since(r.start).Seconds(), Violations: unlisted}
